@@ -29,9 +29,22 @@ unsigned nondet_unsigned(void);
 _Bool nondet_bool(void);
 
 /* ghost */
+#ifdef SHA_UNBOUNDED
+/* any-length unit: the full-block loop of sha_generic() is closed by a loop contract (vlib/loopgen.py);
+ * these appear in its invariant, so they are plain globals */
+uint64_t g_calls, g_blk, g_full;
+const uint8_t *g_msgp;
+int g_ptr_ok, g_fam_ok;
+static uint64_t g_j;
+static unsigned g_i;
+static int g_obs_set, g_kernel_family, g_iv_ok;
+static uint8_t g_obs;
+static int family_ok(const int t, const int fam);
+#else
 static unsigned g_calls, g_j, g_i;
 static int g_obs_set, g_kernel_family, g_iv_ok;
 static uint8_t g_obs;
+#endif
 static uint64_t g_final[8]; /* the (arbitrary) chaining value every compression leaves */
 static int g_type;          /* algorithm under test */
 
@@ -40,6 +53,20 @@ kernel_model(const void *inp, void *digest, const int family)
 {
         const uint8_t *p = (const uint8_t *) inp;
 
+#ifdef SHA_UNBOUNDED
+        /* whole blocks are compressed in place, in order: block k is fed from message offset k * block */
+        if (g_calls < g_full && p != g_msgp + g_calls * g_blk)
+                g_ptr_ok = 0;
+        if (!family_ok(g_type, family))
+                g_fam_ok = 0;
+        if (g_calls == g_j && g_calls >= g_full) {      /* a padding block: watch one of its bytes */
+                g_obs = p[g_i];
+                g_obs_set = 1;
+        }
+        g_calls++;
+        memcpy(digest, g_final, (g_type == 384 || g_type == 512) ? 64 : (g_type == 1 ? 20 : 32));
+        return;
+#endif
         if (g_calls == 0) {
                 /* first block starts from the FIPS initial hash value of the algorithm */
                 g_iv_ok = 1;
@@ -143,6 +170,46 @@ check_sha(const int t, sha_fn fn)
         __CPROVER_assert(imb_errno == 0, "[C14] error code zero on success");
         __CPROVER_assert(!(len == blk - 8 && g_j == 1), "[VACUITY] the length that just overflows into a second block is reachable");
 }
+
+#ifdef SHA_UNBOUNDED
+static void
+check_sha_any_len(const int t, sha_fn fn)
+{
+        const uint64_t blk = fips_blk(t);
+        const uint64_t len = nondet_u64();
+        uint8_t *msg, *out;
+        const uint64_t dsz = fips_digest_bytes(t);
+
+        __CPROVER_assume(len <= ((uint64_t) 1 << 32));   /* only keeps the harness allocation finite */
+        msg = malloc(len);
+        out = malloc(dsz + 8);
+        __CPROVER_assume(out != NULL && (msg != NULL || len == 0));
+        g_type = t; g_calls = 0; g_obs_set = 0; g_ptr_ok = 1; g_fam_ok = 1;
+        g_blk = blk; g_full = len / blk; g_msgp = msg;
+        g_j = nondet_u64(); g_i = nondet_unsigned();
+        __CPROVER_assume(g_i < blk);
+        for (unsigned w = 0; w < 8; w++)
+                g_final[w] = nondet_u64();
+        const uint8_t guard = out[dsz];
+
+        fn(msg, len, out);
+
+        __CPROVER_assert(g_calls == fips_nblocks(t, len), "[C02][C08] ANY length: number of compressed blocks = FIPS 180-4 padded length / block size");
+        __CPROVER_assert(g_ptr_ok, "[C02] ANY length: whole block k is compressed straight from message offset k * block size, in order");
+        __CPROVER_assert(g_fam_ok, "[C02][C06] ANY length: every block goes through a compression kernel of this algorithm");
+        if (g_j >= g_full && g_j < fips_nblocks(t, len))
+                __CPROVER_assert(g_obs_set && g_obs == fips_pad_byte(t, msg, len, g_j * blk + g_i),
+                                 "[C02][C08] ANY length: byte i of a padding block = byte of the FIPS 180-4 padded message (tail | 0x80 | zeros | big-endian bit length)");
+        const unsigned wb = (unsigned) fips_word(t);
+        const unsigned q = nondet_unsigned();
+        __CPROVER_assume(q < dsz);
+        const uint64_t word = (wb == 4) ? ((const uint32_t *) g_final)[q / 4] : g_final[q / 8];
+        __CPROVER_assert(out[q] == (uint8_t) (word >> (8 * (wb - 1 - (q % wb)))), "[C02] ANY length: digest = big-endian final chaining value, truncated to the digest size");
+        __CPROVER_assert(out[dsz] == guard, "[C07] nothing is written past the digest");
+        __CPROVER_assert(!(len == 1000 * blk + blk - 3 && g_j == 1001), "[VACUITY] 1000-block message with a two-block padding reachable");
+}
+#define check_sha check_sha_any_len
+#endif
 
 static void
 check_sha_null(sha_fn fn)
